@@ -237,7 +237,7 @@ class Matrix:
             k = solve(res)
             v = self @ k
             for k_, v_, v2_ in krylov:  # orthogonolize v (modified Gramm-Schmidt)
-                c = _vdot(v, v_) / v2_
+                c = _vdot(v_, v) / v2_
                 k -= k_ * c
                 v -= v_ * c
             v2 = _vdot(v)
